@@ -36,6 +36,9 @@ pub fn malformed_values() -> Vec<(&'static str, &'static str)> {
         ("words", "yesterday"),
         ("epoch number", "946684800"),
         ("README slash form", "2024/02/15 12:00:00"),
+        ("kanji date", "2024年12月31日 23:59:59"),
+        ("full-width digits", "２０００-01-01 00:00:00"),
+        ("multi-byte words", "来週の金曜日まで"),
     ]
 }
 
